@@ -85,6 +85,28 @@ def veq(a, b):
     return len(a) == len(b) and all(abs(float(p) - float(q)) < 1e-9 for p, q in zip(a, b))
 
 
+def forced_choice_class(b, desc, inst, node, enc):
+    """Names the situation 'the variable belongs to a selection choice that is active in the instance and whose
+    taken option is the only one the other choices of the instance leave admissible' (the choice was resolved
+    automatically); None for anything else (the default class, corpus member | encoder, is used then)."""
+    if node not in b.choice.values():
+        return None
+    cid = [c for c, n in b.choice.items() if n == node][0]
+    nodes, _, _, der = b.observe(inst)
+    a = {}
+    for c in desc.choices:
+        tk = [o for o in c.options if (c.origin, o) in der]
+        if c.origin in nodes and len(tk) == 1:
+            a[c.cid] = tk[0]
+    if cid not in a:
+        return None
+    alts = set()
+    for adm in specsem.admissible_assignments(desc):
+        if cid in adm and all(adm.get(c, o) == o for c, o in a.items() if c != cid):
+            alts.add(adm[cid])
+    return f'forced-active-choice|{enc}' if alts == {a[cid]} else None
+
+
 def decode_member(desc, tier, seed, props=('C01', 'C03', 'C07', 'C16'), encoders=('COMPLETE', 'FAST')):
     """Contracts on get_graph for every vector of the declared space of one corpus member."""
     ctx = Ctx(desc)
@@ -171,7 +193,8 @@ def decode_member(desc, tier, seed, props=('C01', 'C03', 'C07', 'C16'), encoders
                                   f'variable {k} active but choice {cid} inactive', nt)
                     if not dv.conditionally_active:
                         ctx.check('C07.unconditional-always-active', bool(act[k]), wit,
-                                  f'variable {k} not conditionally active but inactive', nt)
+                                  f'variable {k} not conditionally active but inactive', nt,
+                                  wclass=None if act[k] else forced_choice_class(b, desc, inst, node, enc))
                 try:
                     _, xn, an = gp.get_graph(list(x), create=False)
                     ctx.check('C07.create-flag-agreement', veq(xn, xi) and list(an) == list(act), wit,
